@@ -66,6 +66,7 @@ CONFIGS = {
     ],
 }
 PATH_CAP = 60
+VARIANT_PATHS = 25      # per one-client Redis configuration: paths replayed again on Redis 5 and with cache_size 0
 THREADED_PATHS = 10     # per configuration: paths replayed with the real listener thread of store.py
 
 
@@ -127,6 +128,10 @@ def parse_dot(path):
                 raise RuntimeError("unparsed edge line of the dump: " + line[:200])
     if not inits:
         raise RuntimeError("no initial state in " + path)
+    # TLC's node ids (fingerprints) and dump order change from run to run: order every adjacency list by
+    # its labels (an operation has one successor), so that everything downstream is canonical
+    for a in adj:
+        a.sort(key=lambda e: labels[e[0]])
     return inits, adj, labels
 
 
@@ -141,14 +146,16 @@ def edge_cover(init, adj, budget, rng, cap=PATH_CAP):
     par = [None] * n
     dist[init] = 0
     dq = collections.deque([init])
+    reach = []                                          # in BFS order: the canonical numbering
     while dq:
         u = dq.popleft()
+        reach.append(u)
         for ei, (_, v) in enumerate(adj[u]):
             if dist[v] < 0:
                 dist[v] = dist[u] + 1
                 par[v] = (u, ei)
                 dq.append(v)
-    reach = [u for u in range(n) if dist[u] >= 0]
+    rank = {u: r for r, u in enumerate(reach)}
     nedges = sum(len(adj[u]) for u in reach)
     todo = [set() for _ in adj]                         # uncovered target edges per node
     for u in reach:
@@ -163,7 +170,7 @@ def edge_cover(init, adj, budget, rng, cap=PATH_CAP):
             todo[u].add(ei)
         total_targets = budget
     covered = [set() for _ in adj]                      # every edge walked
-    heap = [(dist[u], u) for u in range(n) if todo[u] and dist[u] >= 0]
+    heap = [(dist[u], rank[u], u) for u in reach if todo[u]]
     heapq.heapify(heap)
     paths = []
 
@@ -199,7 +206,7 @@ def edge_cover(init, adj, budget, rng, cap=PATH_CAP):
         return None
 
     while heap:
-        d, u0 = heapq.heappop(heap)
+        d, _, u0 = heapq.heappop(heap)
         if not todo[u0]:
             continue
         pre = []
@@ -223,7 +230,7 @@ def edge_cover(init, adj, budget, rng, cap=PATH_CAP):
             for (px, ei) in seq:
                 u = walk(path, px, ei)
         if todo[u0]:
-            heapq.heappush(heap, (d, u0))
+            heapq.heappush(heap, (d, rank[u0], u0))
         paths.append(path)
     ncov = sum(len(c) for c in covered)
     return paths, ncov, total_targets, len(reach), nedges
@@ -287,7 +294,8 @@ class _NoThreads:
 class Real:
     """The real store objects of one configuration, driven operation by operation."""
 
-    def __init__(self, cfg, workdir):
+    def __init__(self, cfg, workdir, version="6.2.0"):
+        self.version = version
         self.cfg = cfg
         self.P = P_of(cfg)
         self.kind, self.shape, self.nc, self.cap = self.P["kind"], self.P["shape"], self.P["nclients"], self.P["cap"]
@@ -309,7 +317,11 @@ class Real:
         if self.kind == "file" and os.path.exists(self.file):
             os.remove(self.file)
         if self.kind == "redis":
-            fr.reset_server()
+            srv = fr.reset_server(self.version)
+            # the keyspace is shared with other stores (as the engine's three stores share it): keys of
+            # other prefixes before, between and after ours, so that every scan takes several pages
+            for nk in ("a:1", "a:2", "a:3", "c2:k1", "c20", "c20x:k1", "xc20:k1", "z:1"):
+                srv.data[nk] = ("hash", {'"f"': b"1"})
         self.stores, self.clients = [], []
         for c in range(self.nc):
             st, cl = self.open_store(c)
@@ -413,15 +425,20 @@ class Real:
 # ---------------------------------------------------------------------------------------------
 # 3. cases outside the graph
 def badfile_cases(workdir):
+    """A JSONStore opened over a file that cannot be read as a store: (variant, class, content)."""
     out = []
     path = os.path.join(workdir, "bad-%d.json" % os.getpid())
     adir = os.path.join(workdir, "bad-dir-%d.json" % os.getpid())
     os.makedirs(adir, exist_ok=True)
     P = P_of(CONFIGS["quick"][0])
-    variants = [("missing", None), ("empty", b""), ("not-json", b"this is not JSON"), ("truncated", b'{"k1": {"f": 1}, "k2": {"f"'),
-                ("truncated-string", b'{"k1": "abc'), ("binary", b"\xff\xfe\x00\x01{"), ("directory", "DIR"),
-                ("trailing-garbage", b'{"k1": {"f": 1}} x')]
-    for name, content in variants:
+    variants = [("missing", "unreadable", None), ("directory", "unreadable", "DIR"),
+                ("empty", "non-json", b""), ("not-json", "non-json", b"this is not JSON"),
+                ("binary", "non-json", b"\xff\xfe\x00\x01{"), ("trailing-garbage", "non-json", b'{"k1": {"f": 1}} x'),
+                ("truncated", "truncated", b'{"k1": {"f": 1}, "k2": {"f"'), ("truncated-string", "truncated", b'{"k1": "abc'),
+                ("truncated-1-byte", "truncated", b"{"),
+                ("json-array", "json-nonobject", b"[]"), ("json-null", "json-nonobject", b"null"),
+                ("json-number", "json-nonobject", b"5"), ("json-string", "json-nonobject", b'"x"')]
+    for name, cls, content in variants:
         p = path
         if os.path.exists(path):
             os.remove(path)
@@ -432,10 +449,22 @@ def badfile_cases(workdir):
                 f.write(content)
         try:
             st = store_mod.JSONStore(p)
-            o = {"kind": "opened", "cls": "", "n": len(list(iter(st)))}
+            o = {"kind": "opened", "cls": "", "n": -1, "usable": False}
+            try:
+                o["n"] = len(list(iter(st)))
+            except Exception:
+                pass
+            if content != "DIR":            # a store over a directory can never be written: not asked for
+                try:
+                    st["k1"] = {"f": 1}
+                    o["usable"] = plain(st["k1"]) == {"f": 1} and "k1" in st
+                except Exception as ex:
+                    o["cls"] = type(ex).__name__
+            else:
+                o["usable"] = True
         except Exception as ex:
-            o = {"kind": "exc", "cls": type(ex).__name__, "n": 0}
-        out.append({"type": "badfile", "P": P, "variant": name, "out": o})
+            o = {"kind": "exc", "cls": type(ex).__name__, "n": -1, "usable": False}
+        out.append({"type": "badfile", "P": P, "variant": name, "cls": cls, "out": o})
     if os.path.exists(path):
         os.remove(path)
     shutil.rmtree(adir, ignore_errors=True)
@@ -484,14 +513,14 @@ def run(tier_name=None, replay=None):
         rp = json.load(open(replay))
         if rp.get("type", "path") == "path":
             cfg = rp["cfg"]
-            ops = Real(cfg, workdir).replay([tuple(x) for x in rp["labels"]])
+            ops = Real(cfg, workdir, version=cfg.get("version", "6.2.0")).replay([tuple(x) for x in rp["labels"]])
             rows = [{"id": 1, "type": "path", "P": P_of(cfg), "ops": ops}]
         elif rp["type"] == "badfile":
             rows = [dict(o, id=1) for o in badfile_cases(workdir) if o["variant"] == rp["variant"]]
         else:
             rows = [dict(engine_ttl_case(rp["want"]), id=1)]
         try:
-            fails, stats = judge.run_judge("JudgeC20", rows, os.path.join(RUN, "C20-replay"))
+            fails, stats = judge_rows(rows, os.path.join(RUN, "C20-replay"))
         except Exception as ex:
             v.machinery_failure(str(ex)[:1500])
             return v.finish()
@@ -507,7 +536,7 @@ def run(tier_name=None, replay=None):
     # -- the model: one TLC run, every kind ------------------------------------------------------
     m = run_model(configs, workdir, 8)
     t_model = time.time() - t0
-    rows, meta, nid = [], {}, [0]
+    rows, meta, nid, nvariant = [], {}, [0], [0]
     cover_info = {}
     t_cover = t_replay = 0.0
     if not m["ok"]:
@@ -543,6 +572,17 @@ def run(tier_name=None, replay=None):
             meta[nid[0]] = (cfg, labs)
             nops += len(ops)
         t_replay += time.time() - tb
+        # the same operations where the cache is out of use: a server without client tracking (Redis 5) and
+        # cache_size 0 -- get_cached_view must then simply answer from the server
+        if cfg["kind"] == "redis" and cfg["nclients"] == 1:
+            for vname, vcfg, ver in (("redis5", cfg, "5.0.7"), ("cache-off", dict(cfg, cap=0), "6.2.0")):
+                vreal = Real(vcfg, workdir, version=ver)
+                for p in paths[:VARIANT_PATHS]:
+                    labs = [labels[adj[u][ei][0]] for (u, ei) in p]
+                    nid[0] += 1
+                    rows.append({"id": nid[0], "type": "path", "P": P_of(vcfg), "ops": vreal.replay(labs, threaded=False)})
+                    meta[nid[0]] = (dict(vcfg, version=ver, name=name + "/" + vname), labs)
+                    nvariant[0] += len(labs)
         cover_info[name] = {"states": nstates, "transitions": nedges, "paths": len(paths),
                             "operations": nops, "edges_covered": ncov, "edge_coverage": round(ncov / max(nedges, 1), 4),
                             "target_edges": targets}
@@ -598,7 +638,8 @@ def run(tier_name=None, replay=None):
         "states": sum(c["states"] for c in cover_info.values()) + stats["states"],
         "transitions": tot_edges + stats["transitions"],
         "model": cover_info,
-        "traces_validated_against_impl": npaths, "evaluations": nops + len(extra),
+        "traces_validated_against_impl": npaths, "evaluations": nops + nvariant[0] + len(extra),
+        "variant_operations": nvariant[0],
         "edge_coverage": round(cov_edges / max(tot_edges, 1), 4), "edges_covered": cov_edges, "edges_total": tot_edges,
         "distinct_nontrivial": cov_edges,
         "rule": "distinct (model state, operation with its arguments) pairs of MC_Store's state graphs that were driven through the real "
